@@ -28,7 +28,8 @@ the protocol is after the repairs of F13 and F53.  Real time is abstracted.
 * The two source facts the theorems need (`suspend_order`, `resume_clears`) are pinned to
   `Gen/Conc.lean`; `order_matters` / `resume_must_clear` show the LTS is stuck / leaks without them;
   `waitclose_drains`, `input_loop_leaves_on_closed_channel`, `blocking_post_selects_quit` pin the
-  three repaired shapes.
+  three repaired shapes; `drain_matters` / `quit_arm_matters`: without them the LTS has the old stuck /
+  leaking states.
 -/
 namespace VaxisModel.Props.C10Shutdown
 open VaxisModel.Model.Conc VaxisModel.Lemmas.ConcShutdown VaxisModel.Lemmas.ConcMeasure VaxisModel.Lemmas.ConcInv
@@ -291,6 +292,26 @@ theorem input_loop_leaves_on_closed_channel :
 `default`; `PostEvent` is the `select` with `default`. -/
 theorem blocking_post_selects_quit :
     postQuitArmOf Gen.Conc.shape_PostEventBlocking = true ∧ postNonBlockingOf Gen.Conc.shape_PostEvent = true := by decide +kernel
+
+/-- **The repairs matter** (the LTS follows the source facts: `waitDrains`, `postQuitArm`).  With
+`WaitClose` as the bare `<-p.closed` of before the F13 repair, the old witness schedule ends in a
+state of rest in which `Close` — running on the input goroutine — has not returned: the recorded
+finding, as a theorem about the unrepaired protocol.  With the repair the same schedule is not at rest
+there (`Witness.F13.reaches_old_stuck_state`) and every continuation completes. -/
+theorem drain_matters :
+    (match srun { Witness.F13.s0 with waitDrains := false } Witness.F13.witness with
+     | some s => let t := runToRest .libFirst 50 s      -- (what is left: the application's receives)
+                 t.quiescent && !(allReturned t) && t.callers == [{ pc := .waitClosed }] && t.ppc == .emitEOF
+     | none => false) = true := by decide
+
+/-- With `PostEventBlocking` as the bare send of before the F53 repair (but `WaitClose` draining),
+F53's schedule lets `Close` return and then rests with the input goroutine still blocked in its post:
+the goroutine that outlived `Close`. -/
+theorem quit_arm_matters :
+    (match srun { Witness.F53.s0 with postQuitArm := false } Witness.F53.witness with
+     | some s => let t := runToRest .libFirst 100 s
+                 t.quiescent && allReturned t && t.quitCloses == 1 && t.ipc == .posting 1 && !t.final
+     | none => false) = true := by decide
 
 /-- Non-vacuity of the observers: the shapes before the repairs are rejected. -/
 example : waitDrainsOf ["<-p.closed"] = false ∧
